@@ -23,6 +23,29 @@ pub fn run_case(doc: &[u8], lit_start: usize, kind: &str) -> String {
             f.push(format!("{}={}", $name, guarded(|| $body)));
         };
     }
+    // the in-place decoder itself (hook `verif::parse_string_inplace`) on the padded copy `parse_with_padding` makes: decoded
+    // bytes, reader index behind the closing quote, and whether every byte in front of the literal and from that index on is
+    // unchanged (the rest of the document is parsed from this buffer afterwards)
+    for (name, lossy) in [("ip", false), ("ipl", true)] {
+        ep!(name, {
+            let mut b = doc.to_vec();
+            b.extend_from_slice(b"x\"x");
+            b.extend_from_slice(&[0u8; 61]);
+            let orig = b.clone();
+            let start = lit_start + 1;
+            if start > doc.len() {
+                "skip".to_string()
+            } else {
+                match sonic_rs::verif::parse_string_inplace(&mut b, start, lossy) {
+                    Ok((cnt, e)) => {
+                        let frame = e <= b.len() && start + cnt <= e && b[..start] == orig[..start] && b[e..] == orig[e..];
+                        format!("S:{}:{}:{}", hex(&b[start..start + cnt]), e, if frame { 1 } else { 0 })
+                    }
+                    Err(_) => "R".into(),
+                }
+            }
+        });
+    }
     // in-place padded decoder (DOM)
     ep!("inplace", match sonic_rs::from_slice::<Value>(doc) {
         Ok(v) => {
